@@ -44,7 +44,7 @@ Definition wf_bytes (l : bytes) : bool := forallb wf_byte l.
 (* error enum shared with the Go harness (harness/errs.go maps Go errors to these names) *)
 Inductive err :=
 | EOF | UnexpectedEOF | MagicMismatch | HeaderChecksum | ValueChecksum | Decompress
-| NotFound | Rejected | Overflow | OutOfFuel | Other.
+| NotFound | Rejected | Overflow | OutOfFuel | Other | WrappedEOF.
 
 Inductive res (A : Type) := Ok (a : A) | Err (e : err).
 Arguments Ok {A} a.
@@ -55,7 +55,7 @@ Definition err_eqb (a b : err) : bool :=
   | EOF, EOF | UnexpectedEOF, UnexpectedEOF | MagicMismatch, MagicMismatch
   | HeaderChecksum, HeaderChecksum | ValueChecksum, ValueChecksum | Decompress, Decompress
   | NotFound, NotFound | Rejected, Rejected | Overflow, Overflow | OutOfFuel, OutOfFuel
-  | Other, Other => true
+  | Other, Other | WrappedEOF, WrappedEOF => true
   | _, _ => false
   end.
 
